@@ -19,6 +19,7 @@ package hopserver
 
 import (
 	"fmt"
+	"hop.computer/hop/portforwarding"
 	"strings"
 	"testing"
 	"time"
@@ -44,6 +45,7 @@ type c07Op struct {
 	Exp   int    `json:"exp,omitempty"`
 	Sess  int    `json:"sess,omitempty"`  // request: selects among the admitted sessions
 	Shell bool   `json:"shell,omitempty"` // request: pty/shell flag of the exec request
+	PF    int    `json:"pf,omitempty"`    // request: 0 exec request; 1 local, 2 remote port-forward request (through the real checkPF)
 	Dt    int    `json:"dt,omitempty"`    // advance: seconds
 }
 
@@ -163,7 +165,19 @@ func c07Minus(a, b []c07Grant) []c07Grant {
 // kindMatches: does grant g name the requested action (ignoring time)? A shell
 // grant covers any exec request with the shell flag; a command grant covers
 // exactly the non-shell request with identical text.
+// A port-forward request is written as the reserved command text c07PFLocal / c07PFRemote (never a grant's text).
+const (
+	c07PFLocal  = "\x00port-forward:local"
+	c07PFRemote = "\x00port-forward:remote"
+)
+
 func (g c07Grant) kindMatches(text string, shell bool) bool {
+	switch text {
+	case c07PFLocal:
+		return g.Type == authgrants.LocalPF
+	case c07PFRemote:
+		return g.Type == authgrants.RemotePF
+	}
 	if shell {
 		return g.Type == authgrants.Shell
 	}
@@ -190,7 +204,7 @@ func c07Why(s *c07Session, text string, shell bool, now int64) string {
 			early = true
 		case g.kindMatches(text, shell) && now >= g.Exp:
 			late = true
-		case !shell && g.Type == authgrants.Command:
+		case !shell && g.Type == authgrants.Command && text != c07PFLocal && text != c07PFRemote:
 			otherText = true
 		default:
 			otherKind = true
@@ -370,6 +384,12 @@ func c07Run(c c07Case, v *vlib.Verdict) {
 			}
 			s := sessions[op.Sess%len(sessions)]
 			text := c07Text(op.Cmd, op.Var)
+			switch op.PF % 3 {
+			case 1:
+				text, op.Shell = c07PFLocal, false
+			case 2:
+				text, op.Shell = c07PFRemote, false
+			}
 			now := verifAuthzAt(nowSec).UnixNano()
 			var candidates []c07Grant
 			for _, g := range s.live {
@@ -382,7 +402,15 @@ func c07Run(c c07Case, v *vlib.Verdict) {
 				why = c07Why(s, text, op.Shell, now)
 				nt = true
 			}
-			allowed := verifAuthzExecAllowed(s.real, text, op.Shell)
+			var allowed bool
+			switch text {
+			case c07PFLocal:
+				allowed = !s.real.usingAuthGrant || s.real.checkPF(portforwarding.PfLocal) == nil
+			case c07PFRemote:
+				allowed = !s.real.usingAuthGrant || s.real.checkPF(portforwarding.PfRemote) == nil
+			default:
+				allowed = verifAuthzExecAllowed(s.real, text, op.Shell)
+			}
 			after := make([]c07Grant, len(s.real.authorizedActions))
 			for j, a := range s.real.authorizedActions {
 				after[j] = c07FromReal(a)
@@ -391,6 +419,9 @@ func c07Run(c c07Case, v *vlib.Verdict) {
 			kind := "command:" + c07VarName[op.Var%c07NVars]
 			if op.Shell {
 				kind = "shell"
+			}
+			if op.PF%3 != 0 {
+				kind = []string{"", "port-forward:local", "port-forward:remote"}[op.PF%3]
 			}
 			if allowed {
 				labels["request:"+kind+":allowed"] = true
@@ -421,7 +452,7 @@ func c07Run(c c07Case, v *vlib.Verdict) {
 						sig = "C07:grant-not-yet-effective"
 					case g.kindMatches(text, op.Shell):
 						sig = "C07:grant-expired"
-					case !op.Shell && g.Type == authgrants.Command:
+					case !op.Shell && g.Type == authgrants.Command && op.PF%3 == 0:
 						sig = "C07:allowed-without-matching-grant:different-command"
 					}
 					v.Failf(sig, "%s", ctx)
@@ -557,6 +588,7 @@ func c07Gen(t *rapid.T) c07Case {
 				op.Sess = rapid.IntRange(0, connects-1).Draw(t, "sess")
 			}
 			op.Shell = rapid.IntRange(0, 3).Draw(t, "shell") == 3
+			op.PF = rapid.SampledFrom([]int{0, 0, 0, 0, 0, 1, 1, 2}).Draw(t, "pf")
 			op.Cmd = rapid.IntRange(0, len(c07Base)-1).Draw(t, "cmd")
 			if mode < 6 { // the exact text of a grant drawn earlier
 				g := rapid.SampledFrom(granted).Draw(t, "like")
